@@ -97,3 +97,136 @@ def float_to_str_contract(prop, tier, seed):
         res["violations"].append({"replay": os.path.relpath(path, ROOT), "confirmed": True,
                                   "what": "bounded: float_to_str(%s) with %d decimals gives %r: %s" % (f0["input"], f0["decimals"], f0["result"], f0["clause"])})
     return res
+
+
+# ------------------------------------------------------------------------------ C04: enclosure for uncertain states
+
+
+def enclosure_contract(prop, tier, seed):
+    """geometry.shape.occupancy_shape_from_state for uncertain position / orientation: 'the occupancy encloses the shape for
+    every admissible position and orientation'.  The argument needs monotonicity of l*cos(d) + w*sin(d) on an interval,
+    which the sin/cos model (uninterpreted, sin^2+cos^2=1) cannot carry; the clause is therefore checked BOUNDED, natively:
+    a fixed grid of shapes x position regions x orientations / orientation intervals, and for each a fixed set of
+    admissible (position, orientation) samples (corners, edge midpoints, centre, interval ends and interior points, plus
+    seeded pseudo-random interior points); every vertex (circle: 16 boundary points) of the placed shape must lie in the
+    returned region (tolerance 1e-9).  Bound: exactly that grid."""
+    import warnings
+
+    from commonroad.common.util import AngleInterval
+    from commonroad.geometry.shape import Circle, Polygon, Rectangle, occupancy_shape_from_state
+    from commonroad.scenario.state import CustomState
+
+    from .driver import load_known_findings
+
+    rng = random.Random(7919 * (seed + 1))
+    shapes = {
+        "rectangle 4x2": Rectangle(4.0, 2.0), "rectangle 1x1": Rectangle(1.0, 1.0), "rectangle 5x0.5": Rectangle(5.0, 0.5),
+        "circle r=1": Circle(1.0), "circle r=0.3": Circle(0.3),
+        "polygon centred": Polygon(np.array([[-2.0, -1.0], [2.0, -1.0], [2.5, 0.0], [2.0, 1.0], [-2.0, 1.0], [-2.5, 0.0]])),
+        "polygon off-centre": Polygon(np.array([[0.0, 0.0], [4.0, 0.0], [0.0, 2.0]])),
+    }
+    c0 = np.array([10.0, 5.0])
+    regions = {"exact": None}
+    for (l, w) in ((1.0, 0.5), (2.0, 2.0)):
+        for th in (0.0, 0.4, -1.1, 2.5):
+            regions["rectangle %sx%s @%s" % (l, w, th)] = Rectangle(l, w, c0, th)
+    regions["circle r=0.7"] = Circle(0.7, c0)
+    regions["polygon"] = Polygon(np.array([[9.0, 4.5], [11.0, 4.5], [10.5, 6.0]]))
+    orients = {"exact %s" % a: a for a in (0.0, 0.7, -2.0, 3.0)}
+    for a0 in (0.0, 0.7, -2.0):
+        for ln in (0.2, 1.0, 2.5):
+            orients["interval [%s, %s]" % (a0, a0 + ln)] = AngleInterval(a0, a0 + ln)
+    n_rand = 4 if tier != "thorough" else 40
+
+    def positions(reg):
+        if reg is None:
+            return [c0]
+        if isinstance(reg, Circle):
+            pts = [reg.center] + [reg.center + reg.radius * np.array([math.cos(k * math.pi / 4), math.sin(k * math.pi / 4)]) for k in range(8)]
+            for _ in range(n_rand):
+                r, a = reg.radius * math.sqrt(rng.random()), rng.uniform(0, 2 * math.pi)
+                pts.append(reg.center + r * np.array([math.cos(a), math.sin(a)]))
+            return pts
+        vs = [np.array(v) for v in reg.vertices[:-1]] if np.allclose(reg.vertices[0], reg.vertices[-1]) else [np.array(v) for v in reg.vertices]
+        pts = list(vs) + [(vs[i] + vs[(i + 1) % len(vs)]) / 2 for i in range(len(vs))] + [sum(vs) / len(vs)]
+        for _ in range(n_rand):
+            wts = np.array([rng.random() for _ in vs])
+            wts /= wts.sum()
+            pts.append(sum(wi * v for wi, v in zip(wts, vs)))
+        return pts
+
+    def angles(o):
+        if not isinstance(o, AngleInterval):
+            return [o]
+        a, b = o.start, o.end
+        return [a, b, (a + b) / 2] + [a + (b - a) * k / 6 for k in range(1, 6)] + [rng.uniform(a, b) for _ in range(n_rand)]
+
+    def boundary(placed):
+        if isinstance(placed, Circle):
+            return [placed.center + placed.radius * np.array([math.cos(k * math.pi / 8), math.sin(k * math.pi / 8)]) for k in range(16)]
+        return [np.array(v) for v in placed.vertices]
+
+    def inside(enc, pt):
+        if isinstance(enc, Rectangle):
+            d = pt - enc.center
+            c, s = math.cos(enc.orientation), math.sin(enc.orientation)
+            x, y = c * d[0] + s * d[1], -s * d[0] + c * d[1]
+            return abs(x) <= enc.length / 2 + 1e-9 and abs(y) <= enc.width / 2 + 1e-9
+        return bool(enc.contains_point(pt))
+
+    known = {k.get("region"): k for k in load_known_findings() if k.get("property") == prop and k.get("obligation") == "C04/bounded/enclosure"}
+    evaluations = cases = 0
+    failures = {}
+    with warnings.catch_warnings():
+        warnings.simplefilter("ignore")
+        for sname, shape in shapes.items():
+            for rname, reg in regions.items():
+                for oname, o in orients.items():
+                    if reg is None and not isinstance(o, AngleInterval):
+                        continue
+                    cases += 1
+                    st = CustomState(time_step=0, position=reg if reg is not None else c0, orientation=o)
+                    try:
+                        enc = occupancy_shape_from_state(shape, st)
+                    except Exception as e:  # the real code raised
+                        failures.setdefault("shape=%s" % sname.split(" ")[0] + ("-offcentre" if "off-centre" in sname else ""), []).append(
+                            {"shape": sname, "position": rname, "orientation": oname, "raised": "%s: %s" % (type(e).__name__, e)})
+                        continue
+                    for p in positions(reg):
+                        for a in angles(o):
+                            placed = shape.rotate_translate_local(np.array(p, dtype=float), float(a))
+                            for pt in boundary(placed):
+                                evaluations += 1
+                                if not inside(enc, pt):
+                                    # failure classes: the two asymmetric-polygon cases are separate from everything else
+                                    if "off-centre" in sname:
+                                        key = "shape=polygon-offcentre"
+                                    elif rname == "polygon":
+                                        key = "position=asymmetric-polygon"
+                                    else:
+                                        key = "shape=%s,position=%s" % (sname.split(" ")[0], rname.split(" ")[0])
+                                    fl = failures.setdefault(key, [])
+                                    if len(fl) < 3:
+                                        fl.append({"shape": sname, "position region": rname, "orientation": oname, "admissible position": [float(x) for x in p],
+                                                   "admissible orientation": float(a), "point of the placed shape": [float(x) for x in pt],
+                                                   "returned region": "Rectangle(%r, %r, %r, %r)" % (enc.length, enc.width, list(map(float, enc.center)), enc.orientation)
+                                                   if isinstance(enc, Rectangle) else repr(enc)})
+    res = {"bounded": [{
+        "name": "occupancy_shape_from_state encloses the shape for every admissible position and orientation", "label": "bounded",
+        "bound": "%d (shape, position region, orientation) cases x fixed admissible samples (+%d seeded random per region / interval); tolerance 1e-9" % (cases, n_rand),
+        "evaluations": evaluations, "distinct_nontrivial": cases, "failures": sum(len(v) for v in failures.values()),
+    }], "violations": [], "known": []}
+    for key, fl in failures.items():
+        if key in known:
+            res["known"].append("%s [C04/bounded/enclosure, %s]" % (known[key]["text"], key))
+            continue
+        os.makedirs(os.path.join(ROOT, "replays"), exist_ok=True)
+        path = os.path.join(ROOT, "replays", "%s-bounded-enclosure-%s.json" % (prop, re.sub(r"[^A-Za-z0-9]+", "_", key)))
+        with open(path, "w") as fh:
+            json.dump({"property": prop, "obligation": "C04/bounded/enclosure (%s)" % key, "kind": "bounded run-time contract evaluation", "failing_inputs": fl,
+                       "replay": "occupancy_shape_from_state(shape, CustomState(time_step=0, position=<region>, orientation=<orientation>)); place the shape at the admissible "
+                                 "position / orientation with rotate_translate_local and test the listed point against the returned region"}, fh, indent=1)
+        f0 = fl[0]
+        res["violations"].append({"replay": os.path.relpath(path, ROOT), "confirmed": True,
+                                  "what": "bounded: enclosure does not contain the placed shape: %s" % json.dumps(f0)[:400]})
+    return res
